@@ -602,7 +602,7 @@ class World:
             self.on_iteration(self)
         for h in self.hooks:
             h(self)
-        if self.accept_q:
+        if self.accept_q and self._accept_ready():
             # hand over one connection per iteration (peers still move below next time)
             return self.accept_q.pop(0)
         moved_by_schedule = False
@@ -616,7 +616,7 @@ class World:
         else:
             for name in list(self.order):
                 self._move(self.peers.get(name), drain_phase=True)
-        if self.accept_q:
+        if self.accept_q and self._accept_ready():
             return self.accept_q.pop(0)
         if self.stop_when is not None and self.stop_when(self):
             self.ended_by_script = True
@@ -651,6 +651,19 @@ class World:
             self.ended_by_script = True
             return False
         raise queue.Empty()
+
+    def _accept_ready(self) -> bool:
+        """A listener with TLS enabled performs the handshake while the work is being initialised, i.e. in a blocking call
+        on a freshly accepted socket; a client flagged `send_before_accept` therefore gets its first bytes into the socket
+        before the connection is handed to the executor (as a real client's would be by the time accept() returns)."""
+        ks, _addr = self.accept_q[0]
+        name = getattr(ks, 'kname', 'client:')[7:]
+        p = self.peers.get(name)
+        if p is None or not getattr(p, 'send_before_accept', False):
+            return True
+        if p.sent == 0 and len(p.out) > 0 and not p.closed:
+            p._send_some(None)
+        return p.sent > 0 or p.closed or len(p.out) == 0
 
     def _pending_clients(self) -> bool:
         return any(p.sock is None and (not p.script_done or len(p.out)) for p in self.peers.values() if p.name in self.client_plans)
@@ -845,6 +858,8 @@ def _run_threaded(self: World, client_name: str) -> World:
     CURRENT = self
     peer = self.peers[client_name]
     self.open_client(peer)
+    if getattr(peer, 'send_before_accept', False):
+        peer._send_some(None)
     conn, addr = self.accept_q.pop(0)
     work_klass = self.flags.work_klass
     work = work_klass(work_klass.create(conn, addr), flags=self.flags, event_queue=None, upstream_conn_pool=None)
